@@ -48,6 +48,37 @@ func TwinFinalizeVoted(c *Chain, txs [][]byte) (*abci.ResponseFinalizeBlock, err
 	})
 }
 
+// TwinPrepareProposal: the node is the proposer of a round for the next height; returns how many transactions it kept.
+func TwinPrepareProposal(c *Chain, pool [][]byte) (n int, err error) {
+	defer func() {
+		if p := recover(); p != nil {
+			n, err = 0, fmt.Errorf("panic: %v", p)
+		}
+	}()
+	h := c.header()
+	res, err := c.App.BaseApp.PrepareProposal(&abci.RequestPrepareProposal{Height: h.Height, Time: h.Time, ProposerAddress: h.ProposerAddress, Txs: pool, MaxTxBytes: 1 << 20})
+	if err != nil {
+		return 0, err
+	}
+	return len(res.Txs), nil
+}
+
+// TwinProcessProposal: the node validates the proposal of a round for the next height (the block that will be decided).
+func TwinProcessProposal(c *Chain, txs [][]byte) (accepted bool, err error) {
+	defer func() {
+		if p := recover(); p != nil {
+			accepted, err = false, fmt.Errorf("panic: %v", p)
+		}
+	}()
+	h := c.header()
+	hash := sha256.Sum256([]byte(fmt.Sprintf("twin-block/%d/%d", h.Height, h.Time.UnixNano())))
+	res, err := c.App.BaseApp.ProcessProposal(&abci.RequestProcessProposal{Height: h.Height, Time: h.Time, ProposerAddress: h.ProposerAddress, Txs: txs, Hash: hash[:]})
+	if err != nil {
+		return false, err
+	}
+	return res.Status == abci.ResponseProcessProposal_ACCEPT, nil
+}
+
 // TwinCommit is the second half of RunBlockVoted.
 func TwinCommit(c *Chain) error {
 	if _, err := c.App.BaseApp.Commit(); err != nil {
